@@ -879,16 +879,25 @@ class Interp(Engine):
         rt = fv.node.returns
         if isinstance(rt, ast.Constant) and isinstance(rt.value, str):
             self.assume_type(t, rt.value)       # declared range of the ghost function (checked against the body at each unfolding)
+            tag = {"bool": 3, "int": 4, "str": 6}.get(rt.value)
+            if tag is not None:
+                self.p.known_tag[t.get_id()] = tag      # no case split on the tag of the result
+                self.p.keep.append(t)
+        # the result as a statically kinded value when the declared range fixes the tag (no case split at uses)
+        kind = rt.value if isinstance(rt, ast.Constant) and isinstance(rt.value, str) else None
+        res = {"int": lambda: s_int(simp(Val.vi(t))), "bool": lambda: s_bool(simp(Val.vb(t))),
+               "str": lambda: s_str(simp(Val.vs(t)))}.get(kind, lambda: s_val(t))()
+        res.rec_term = t
         ens = self.rec_ensures(fv)
         if ens is not None and not getattr(self, "_in_ensures", False):
             # postcondition of the ghost function, proved by induction on its unfolding (obligation <name>.ensures-inductive)
             self._in_ensures = True
             try:
-                self.p.assume(self.truthy(self.call_func(ens, list(self.flat_args(args)) + [s_val(t)], {})))
+                self.p.assume(self.truthy(self.call_func(ens, list(self.flat_args(args)) + [res], {})))
             finally:
                 self._in_ensures = False
         self.p.assume(z3.Implies(Val.is_VRef(t), Val.ref(t) < self.p.alloc0 + self.p.nalloc))
-        return s_val(t), (f.name(), tuple(b.get_id() for b in boxed)), boxed
+        return res, (f.name(), tuple(b.get_id() for b in boxed)), boxed
 
     def rec_ensures(self, fv):
         """the companion  <name>__ensures(args..., result)  of a recursive ghost function, if the module defines one"""
@@ -933,11 +942,11 @@ class Interp(Engine):
             # inductive step: the body satisfies the postcondition, given that the inner applications do
             self._in_ensures = True
             try:
-                c = self.truthy(self.call_func(ens, list(self.flat_args(args)) + [s_val(bt)], {}))
+                c = self.truthy(self.call_func(ens, list(self.flat_args(args)) + [body if body.kind in ("int", "bool", "str") else s_val(bt)], {}))
             finally:
                 self._in_ensures = False
             self.p.obligations.append((f"{fv.qualname.split(':')[-1]}.ensures-inductive", simp(c), ""))
-        self.p.assume(r.t == bt)
+        self.p.assume(r.rec_term == bt)
         return r
 
     def val_terms(self, args):
@@ -1352,6 +1361,11 @@ class Interp(Engine):
         args = []
         for n in names:
             v = fr.locals.get(n)
+            if v is None:
+                try:
+                    v = self.lookup(n, fr)          # a variable of an enclosing function (closure environment)
+                except PyExc:
+                    v = None
             if v is None:
                 raise Unsupported(f"loop invariant refers to {n}, which is not bound at the loop head")
             args.append(v)
